@@ -161,6 +161,8 @@ def report(rep, binary, wd, problems, proof_broken):
                       % (len(genuine), src, detail), [small])
     elif others:
         line, kind, detail, src = others[0]
+        # a dead harness shows up as a short stream: say how it died
+        detail += ''.join(' || ' + p[2] for p in others if p[1] == 'harness-exit' and p[3] == src)[:1500]
         small = pollrun.shrink(binary, line, kind, os.path.join(wd, 'shrink')) if line.startswith('batch') else line
         rep.violation('correspondence Netpoll.Poll.Handler <-> poll_default_linux.go/poll_default.go/net_io.go no longer checks (%s, %d batches, source: %s) and the spec oracle '
                       'found no violating batch among %d evaluations: %s' % (kind, len(others), src, rep.cov['evaluations'], detail),
